@@ -110,18 +110,20 @@ def Res.bot {D} : Res D := ⟨true, none, none, none, none⟩
 def Res.merge {D} (j : D → D → D) (a b : Res D) : Res D :=
   ⟨a.ok && b.ok, joinO j a.norm b.norm, joinO j a.exc b.exc, joinO j a.ret b.ret, joinO j a.brk b.brk⟩
 
-/-- candidate loop-head state: iterate `H := H ⊔ norm(body H) ⊔ brk(body H)` `fuel` times -/
-def loopHead {D} (j : D → D → D) (f : D → Res D) : Nat → D → D
-  | 0, h => h
-  | n + 1, h =>
-    let r := f h
-    let h1 := match r.norm with | some d => j h d | none => h
-    let h2 := match r.brk with | some d => j h1 d | none => h1
-    loopHead j f n h2
-
 def leO {D} (le : D → D → Bool) : Option D → D → Bool
   | none, _ => true
   | some a, b => le a b
+
+/-- candidate loop-head state: iterate `H := H ⊔ norm(body H) ⊔ brk(body H)` `fuel` times -/
+def loopHead {D} (j : D → D → D) (le : D → D → Bool) (f : D → Res D) : Nat → D → D
+  | 0, h => h
+  | n + 1, h =>
+    let r := f h
+    if leO le r.norm h && leO le r.brk h then h        -- already a post-fixpoint
+    else
+      let h1 := match r.norm with | some d => j h d | none => h
+      let h2 := match r.brk with | some d => j h1 d | none => h1
+      loopHead j le f n h2
 
 def analyze {A D} (dom : Dom A D) : Prog A → D → Res D
   | .skip, d => { Res.bot with norm := some d }
@@ -139,7 +141,7 @@ def analyze {A D} (dom : Dom A D) : Prog A → D → Res D
     let r := Res.merge dom.join (analyze dom p (dom.assume c true d)) (analyze dom q (dom.assume c false d))
     { r with ok := r.ok && dom.check c d }
   | .loop b, d =>
-    let h := loopHead dom.join (analyze dom b) 8 d
+    let h := loopHead dom.join dom.le (analyze dom b) 8 d
     let r := analyze dom b h
     -- `h` must be a post-fixpoint: whatever an iteration ends in is below `h`
     { ok := r.ok && dom.le d h && leO dom.le r.norm h && leO dom.le r.brk h,
@@ -166,8 +168,9 @@ def analyze {A D} (dom : Dom A D) : Prog A → D → Res D
     { ok := rb.ok, norm := joinO dom.join (joinO dom.join rb.norm rb.ret) rb.brk,
       exc := rb.exc, ret := none, brk := none }
 
-/-- every exit of the method (normal, by exception, by return) satisfies `good` -/
-def exitsGood {D} (good : D → Bool) (r : Res D) : Bool :=
-  r.ok && (r.norm.all good) && (r.exc.all good) && (r.ret.all good) && (r.brk.all good)
+/-- every exit of the method (normal, by exception, by return) satisfies `good` for that kind of exit -/
+def exitsGood {D} (good : Outcome → D → Bool) (r : Res D) : Bool :=
+  r.ok && (r.norm.all (good .norm)) && (r.exc.all (good .exc)) && (r.ret.all (good .ret)) &&
+    (r.brk.all (good .brk))
 
 end MlVerif.Flow
